@@ -24,4 +24,4 @@ for c in "$@"; do
   echo "== ./check $c against the patched tree"
   (cd /verif && VERIF_REPO=$WT ./check $c 2>&1 | tail -4 | cut -c1-700)
 done
-git -C /repo worktree remove --force $WT; rm -rf /verif/work/alt-*
+git -C /repo worktree remove --force $WT; rm -rf /verif/work/alt-$(printf %s "$WT" | sha1sum | cut -c1-8)
